@@ -1,6 +1,6 @@
 import GlueVerif.Lemmas.C17Refresh
 /-!
-Helper lemmas for C17, part 4: the messages of every call inside the hypothesis explain exactly the
+Helper lemmas for C17, part 4: the messages of every call explain exactly the
 change of the identifier list (`replay`).
 -/
 namespace GlueVerif.Lemmas.C17
@@ -69,6 +69,17 @@ def Msg.isStructural : Msg → Bool
   | .reorder _ => true
   | _ => false
 
+/-- The announcements of the building blocks: additions and removals with their
+`ComponentsChanged`. -/
+def Msg.isAR : Msg → Bool
+  | .add _ => true
+  | .remove _ => true
+  | .changed => true
+  | _ => false
+
+theorem isAR_structural {m : Msg} (h : Msg.isAR m = true) : Msg.isStructural m = true := by
+  cases m <;> first | rfl | cases h
+
 /-- Well-formedness the building blocks need and keep: unique identifiers, all older than `next`. -/
 structure W (s : State) : Prop where
   nodup : (cids s.comps).Nodup
@@ -84,13 +95,16 @@ old ids, dataset label, linked ids, components stored under old ids) is untouche
 structure Eff (old : Cid → Prop) (s s' : State) (ms : List Msg) : Prop where
   rep : s.hub = true → Rep (cids s.comps) (cids s'.comps) ms
   quiet : s.hub = false → ms = []
-  structural : ∀ m ∈ ms, Msg.isStructural m = true
+  ar : ∀ m ∈ ms, Msg.isAR m = true
   hub : s'.hub = s.hub
   label : ∀ c, old c → s'.label c = s.label c
   dlabel : s'.dlabel = s.dlabel
   linked : s'.linked = s.linked
   inDc : s'.inDc = s.inDc
   form : ∃ (k : Cid → Bool) (new : List Cid), cids s'.comps = (cids s.comps).filter k ++ new ∧ ∀ c ∈ new, ¬ old c
+
+theorem Eff.structural {old : Cid → Prop} {s s' : State} {ms : List Msg} (e : Eff old s s' ms) :
+    ∀ m ∈ ms, Msg.isStructural m = true := fun m hm => isAR_structural (e.ar m hm)
 
 theorem Eff.refl (old : Cid → Prop) (s : State) : Eff old s s [] :=
   ⟨fun _ => Rep.nil _, fun _ => rfl, by simp, rfl, fun _ _ => rfl, rfl, rfl, rfl,
@@ -105,8 +119,8 @@ theorem Eff.trans {old : Cid → Prop} {s s1 s2 : State} {m1 m2 : List Msg} (h1 
     rw [h1.quiet hh, h2.quiet (h1.hub.trans hh)]; rfl
   · intro m hm
     rcases List.mem_append.1 hm with hm | hm
-    · exact h1.structural m hm
-    · exact h2.structural m hm
+    · exact h1.ar m hm
+    · exact h2.ar m hm
   · obtain ⟨k1, n1, e1, o1⟩ := h1.form
     obtain ⟨k2, n2, e2, o2⟩ := h2.form
     refine ⟨fun x => k1 x && k2 x, n1.filter k2 ++ n2, ?_, ?_⟩
@@ -142,24 +156,24 @@ theorem cids_filter_contains (cs : List Comp) (R : List Cid) :
   simp only [cids, List.filter_map, Function.comp_def]
 
 theorem structural_adds (ids : List Cid) : ∀ m ∈ ids.flatMap (fun c => [Msg.add c, Msg.changed]),
-    Msg.isStructural m = true := by
+    Msg.isAR m = true := by
   intro m hm
   simp only [List.mem_flatMap, List.mem_cons, List.mem_nil_iff, or_false] at hm
   obtain ⟨c, _, rfl | rfl⟩ := hm <;> rfl
 
 theorem structural_removes (ids : List Cid) : ∀ m ∈ ids.flatMap (fun c => [Msg.remove c, Msg.changed]),
-    Msg.isStructural m = true := by
+    Msg.isAR m = true := by
   intro m hm
   simp only [List.mem_flatMap, List.mem_cons, List.mem_nil_iff, or_false] at hm
   obtain ⟨c, _, rfl | rfl⟩ := hm <;> rfl
 
-theorem structural_announceRemoves (s : State) (R : List Cid) : ∀ m ∈ announceRemoves s R, Msg.isStructural m = true := by
+theorem structural_announceRemoves (s : State) (R : List Cid) : ∀ m ∈ announceRemoves s R, Msg.isAR m = true := by
   simp only [announceRemoves]
   split
   · exact structural_removes R
   · simp
 
-theorem structural_announceAdds (s : State) (R : List Cid) : ∀ m ∈ announceAdds s R, Msg.isStructural m = true := by
+theorem structural_announceAdds (s : State) (R : List Cid) : ∀ m ∈ announceAdds s R, Msg.isAR m = true := by
   simp only [announceAdds]
   split
   · exact structural_adds R
